@@ -318,10 +318,10 @@ func (p *Program) handleResize() chan struct{} {
 	ch := make(chan struct{})
 
 	if p.ttyOutput != nil {
-		// Get the initial terminal size and send it to the program.
-		go p.checkResize()
-
-		// Listen for window resizes.
+		// Listen for window resizes. The listener also reports the initial
+		// terminal size, once it is subscribed to resize events: a resize
+		// that fell between an earlier query and the subscription would go
+		// unnoticed.
 		go p.listenForResize(ch)
 	} else {
 		close(ch)
